@@ -144,3 +144,16 @@ theorem C04_reported_lipschitz (sf sq : Bool) (x y : Fin 8 → ℝ) :
       |homogeneous.Erhg (x 0) (x 1) (x 2) (x 3) (x 4) (x 5) (x 6) (x 7) true - homogeneous.Erhg (y 0) (y 1) (y 2) (y 3) (y 4) (y 5) (y 6) (y 7) true| := by
   rw [C01_value, C01_value]
   exact C04_selection_lipschitz _ _ _ _ _ _ _ _
+
+/-- the two-piece form of the corrected √Cx, as a function of the Gibert value G and the Wilson value W -/
+noncomputable def sqrtcxPieces (G W : ℝ) : ℝ :=
+  let G' := if G > 1.8 then 1.8 * (G / 1.8) ^ (0.75 : ℝ) else G
+  if G' < W then G' * 0.6 + W * (1 - 0.6) else G'
+
+/-- the generated `sqrtcx` IS that two-piece function of G = 1/Fr^(10/9) and W = 0.226 (g/d)^0.1667 (so `C04_sqrtcx_pieces_meet` is about the code) -/
+theorem C04_sqrtcx_is_pieces (vt d : ℝ) :
+    heterogeneous.sqrtcx vt d =
+      sqrtcxPieces (1 / (vt / ((Cst.gravity : ℝ) * d) ^ (0.5 : ℝ)) ^ ((10 : ℝ) / 9)) (0.226 * ((Cst.gravity : ℝ) / d) ^ (0.1667 : ℝ)) := by
+  unfold heterogeneous.sqrtcx sqrtcxPieces
+  simp only [Transc.rpow, gt_iff_lt, decide_eq_true_eq, sci_one]
+  norm_num
